@@ -72,7 +72,9 @@ Print Assumptions c18_tile_inversion.
    spacing; no LF in the text; reported width <= active width, line height(s) <= active
    height): every lit pixel of the line lies between the columns
    border + floor((aw - sw)/2) and border + ceil((aw - sw)/2) + sw + one size step, where sw,
-   line height and size step are the metrics of the returned image's text state.
+   line height and size step are computed by the SPEC from the state alone (Spec.Tile.centre_tstate:
+   text font, TextWidth/TextHeight or UnformattedFontSize; sw = sum of the glyph advances of the
+   runes the string decodes to, minus one size step) - not taken from the renderer.
    Reading of "centred to within one pixel": it is the METRIC box [x0, x0 + sw) - what
    StrWidth reports and callers centre with - whose left and right margins differ by 0 or 1;
    the ink lies in that box extended by one size step (C20's ink box: glyphs of characters
@@ -83,14 +85,13 @@ Print Assumptions c18_tile_inversion.
    from it downwards. ---- *)
 Theorem c18_oneline_centred : forall t W H shrink border i,
   0 <= W -> 0 <= H -> 0 <= border -> x_inv t = false -> tile t W H shrink border = Ok i ->
-  oneline_ok t W H shrink border (idata i) (str_width (it i) (x_title t)) (line_height (it i)) (tsh (it i)) = true.
+  oneline_ok t W H shrink border (idata i) = true.
 Proof. exact top_oneline. Qed.
 Print Assumptions c18_oneline_centred.
 
 Theorem c18_twoline_centred : forall t W H shrink border i,
   0 <= W -> 0 <= H -> 0 <= border -> x_inv t = false -> tile t W H shrink border = Ok i ->
-  twoline_ok t W H shrink border (idata i) (str_width (it i) (x_l1 t)) (str_width (it i) (x_l2 t))
-             (line_height (it i)) (tsh (it i)) = true.
+  twoline_ok t W H shrink border (idata i) = true.
 Proof. exact top_twoline. Qed.
 Print Assumptions c18_twoline_centred.
 
@@ -169,15 +170,17 @@ Proof. vm_compute. reflexivity. Qed.
 
 (* the centring hypotheses hold for ordinary states (so the conclusions say something) *)
 Example c18_ex_oneline_applies :
-  match tile ex10 64 32 1 2 with
-  | Ok i => oneline_applies ex10 (active_w 64 1 2) (active_h 32 1 2) (str_width (it i) (x_title ex10)) (line_height (it i))
-  | Panic _ => false end = true.
-Proof. vm_compute. reflexivity. Qed.
+  oneline_applies ex10 (active_w 64 1 2) (active_h 32 1 2) (line_width ex10 (x_title ex10)) (line_h ex10) = true
+  /\ (line_width ex10 (x_title ex10), line_h ex10, size_step ex10) = (35, 8, 1).
+Proof. vm_compute. auto. Qed.
 
 Example c18_ex_twoline_applies :
-  match tile ex11 64 32 0 0 with
-  | Ok i => twoline_applies ex11 (active_w 64 0 0) (active_h 32 0 0) (str_width (it i) (x_l1 ex11)) (str_width (it i) (x_l2 ex11)) (line_height (it i))
-  | Panic _ => false end = true.
+  twoline_applies ex11 (active_w 64 0 0) (active_h 32 0 0) (line_width ex11 (x_l1 ex11)) (line_width ex11 (x_l2 ex11)) (line_h ex11) = true.
+Proof. vm_compute. reflexivity. Qed.
+
+(* a multi-byte UTF-8 string is measured by RUNES: "Gr\195\182\195\159e" (7 bytes) is 5 glyphs wide *)
+Example c18_ex_runes :
+  line_width ex10 [71; 114; 195; 182; 195; 159; 101] = line_width ex10 [71; 114; 246; 223; 101].
 Proof. vm_compute. reflexivity. Qed.
 
 (* bar widths: 25%, 50%, 1/3 of 112 (float rounding: 37), clamped below and above *)
